@@ -61,6 +61,13 @@ def last_store(it, frame, colname):
     return None
 
 
+class Rel:
+    """an expected column given by a relation to a term instead of equality (e.g. 'an integer within 0.5 of')"""
+
+    def __init__(self, term, relation, text):
+        self.term, self.relation, self.text = term, relation, text
+
+
 def expect_cols(ctx, it, qual, frame, expected, unchanged=None, samplers=None, what="", n=24, extra_envs=()):
     """compare final column terms of a table with the specified closed forms (random interpretation)"""
     m, fn = ctx.prog.func(qual)
@@ -69,13 +76,17 @@ def expect_cols(ctx, it, qual, frame, expected, unchanged=None, samplers=None, w
             ctx.finding(qual, f"column {cname}", f"{what}: column {cname!r} is missing from the resulting table", fn, m)
             continue
         got = frame.cols[cname]
-        v = tm.equivalent(got, want, samplers=samplers, n=n, seed_tag=qual + cname, extra_envs=extra_envs)
-        ctx.count(1, {"function": qual, "column": cname, "extracted": tm.show(got)[:160], "specified": tm.show(want)[:160],
-                      "points": v.points, "equal": bool(v)})
+        rel = want if isinstance(want, Rel) else None
+        if rel is not None:
+            want = rel.term
+        v = tm.equivalent(got, want, samplers=samplers, n=n, seed_tag=qual + cname, extra_envs=extra_envs,
+                          relation=rel.relation if rel else None)
+        ctx.count(1, {"function": qual, "column": cname, "extracted": tm.show(got)[:160],
+                      "specified": (rel.text + " " if rel else "") + tm.show(want)[:160], "points": v.points, "equal": bool(v)})
         if not v:
             node = last_store(it, frame, cname) or fn
             ctx.finding(qual, node if node is not fn else f"final value of column {cname}",
-                        f"{what}: column {cname!r} must equal {tm.show(want)[:140]} but the code computes "
+                        f"{what}: column {cname!r} must {'be ' + rel.text if rel else 'equal'} {tm.show(want)[:140]} but the code computes "
                         f"{tm.show(got)[:140]}", node, m, witness=v.witness, note=v.note)
     for cname in unchanged or []:
         if cname not in frame.cols:
